@@ -85,6 +85,12 @@ int __real_pthread_cond_timedwait(pthread_cond_t*, pthread_mutex_t*, const struc
 // ------------------------------------------------------------------------------------ global control
 static std::atomic<bool> g_virtual(false);        // clock is virtual
 static std::atomic<bool> g_atomicClock(false);    // lfree: time() = g_vnow (several threads call it)
+// lfree: the trace of critical sections.  Every event is recorded while LogFile's mutex is held (fwrite and
+// time() are only called inside append_unlocked) or before the threads exist (constructor), so pushes are serial.
+struct LfEvent { int t; long a; };                 // t >= 0: fwrite of record #a by thread t;  t == -1: time() returned a
+static std::vector<LfEvent> g_lfTrace;
+static thread_local int t_lfThread = -1;
+static thread_local long t_lfIndex = -1;
 static std::atomic<long> g_vnow(0);
 static std::deque<long> g_timeScript;              // sequential: successive time() results
 static long g_timeLast = 0;
@@ -176,7 +182,12 @@ extern "C" time_t __wrap_time(time_t* t)
 {
   if (!g_virtual.load()) return __real_time(t);
   long v;
-  if (g_atomicClock.load()) v = g_vnow.load();
+  if (g_atomicClock.load())
+  {
+    v = g_vnow.load();
+    LfEvent e; e.t = -1; e.a = v;
+    g_lfTrace.push_back(e);
+  }
   else if (g_log)
   {
     // the back-end's first time() call is in the LogFile constructor, before its first test of running_
@@ -224,6 +235,11 @@ extern "C" size_t __wrap_fwrite_unlocked(const void* p, size_t sz, size_t n, FIL
       if (us > 0) usleep(static_cast<useconds_t>(us));
     }
     return __real_fwrite_unlocked(p, sz, n, fp);
+  }
+  if (g_atomicClock.load() && t_lfThread >= 0)
+  {
+    LfEvent e; e.t = t_lfThread; e.a = t_lfIndex;
+    g_lfTrace.push_back(e);
   }
   if (!g_wrScript.empty())
   {
@@ -396,11 +412,14 @@ static void listFiles()
 }
 
 // ------------------------------------------------------------------------------------ sequential cases
+// disk= : what the kernel has of the current file (fstat), i.e. without what stdio still buffers; oracle only
 static void showSeq(const char* op, muduo::LogFile* lf)
 {
-  printf("%s wb=%ld cnt=%d sop=%ld lr=%ld lf=%ld nfl=%d err=%d tc=%d\n", op,
+  struct stat st;
+  long disk = (fstat(fileno(lf->file_->fp_), &st) == 0) ? static_cast<long>(st.st_size) : -1;
+  printf("%s wb=%ld cnt=%d sop=%ld lr=%ld lf=%ld nfl=%d err=%d tc=%d disk=%ld\n", op,
          static_cast<long>(lf->file_->writtenBytes_), lf->count_, static_cast<long>(lf->startOfPeriod_),
-         static_cast<long>(lf->lastRoll_), static_cast<long>(lf->lastFlush_), g_nflush, g_errSeen ? 1 : 0, g_timeCalls);
+         static_cast<long>(lf->lastRoll_), static_cast<long>(lf->lastFlush_), g_nflush, g_errSeen ? 1 : 0, g_timeCalls, disk);
 }
 
 static void runSeq(const std::vector<string>& hdr)
@@ -453,6 +472,27 @@ static void runSeq(const std::vector<string>& hdr)
       showSeq("A", lf.get());
     }
     else if (w[0] == "F") { lf->flush(); showSeq("F", lf.get()); }
+    else if (w[0] == "C")
+    {
+      // ~LogFile (-> ~AppendFile -> fclose): remember the bookkeeping, destroy, then look at the directory
+      long wb = static_cast<long>(lf->file_->writtenBytes_), lr = static_cast<long>(lf->lastRoll_), lfl = static_cast<long>(lf->lastFlush_), sp = static_cast<long>(lf->startOfPeriod_);
+      int cnt = lf->count_;
+      lf.reset();
+      long total = 0;
+      DIR* dir = opendir(".");
+      if (dir)
+      {
+        while (struct dirent* e = readdir(dir))
+          if (e->d_name[0] != '.') { struct stat st; if (stat(e->d_name, &st) == 0) total += static_cast<long>(st.st_size); }
+        closedir(dir);
+      }
+      printf("C wb=%ld cnt=%d sop=%ld lr=%ld lf=%ld nfl=%d err=0 tc=0 disktotal=%ld\n", wb, cnt, sp, lr, lfl, g_nflush, total);
+      fflush(stdout);
+      // nothing can follow a destroyed object
+      string rest;
+      while (std::getline(std::cin, rest)) { std::vector<string> ww = vh::splitWs(rest); if (!ww.empty() && ww[0] == "end") break; }
+      break;
+    }
     else if (w[0] == "R" && w.size() >= 2)
     {
       g_timeScript.clear();
@@ -762,6 +802,8 @@ static void* lfWorkerMain(void* arg)
     if (len > 8000) len = 8000;
     makeRecord(w->t, i, len, &buf[0]);
     t_fwCalls = 0;
+    t_lfThread = w->t;
+    t_lfIndex = static_cast<long>(i);
     w->lf->append(&buf[0], len);
     if (w->burst && ((i + 1) % w->burst) == 0) sched_yield();
   }
@@ -784,6 +826,8 @@ static void runLogFileFree(const std::vector<string>& hdr)
   g_wrScript.clear();
   g_ferr = 0;
   t_fwCalls = 0;
+  g_lfTrace.clear();
+  g_lfTrace.reserve(static_cast<size_t>(T) * n * 2 + 16);
   printf("case %s free\n", hdr[1].c_str());
   {
     muduo::LogFile lf("c16log", roll, true, flush, every);
@@ -811,6 +855,22 @@ static void runLogFileFree(const std::vector<string>& hdr)
     printf("J");
     for (int t = 0; t < T; ++t) printf(" t%d=%u", t, n);
     printf("\n");
+  }
+  // the trace: "N <v>" = the constructor's time(); "L <t> <i> <k> <v1> <v2>" = thread t's append of its record #i
+  // held the mutex next and read the clock k times (values v1, v2)
+  {
+    size_t i = 0;
+    while (i < g_lfTrace.size() && g_lfTrace[i].t == -1) { printf("N %ld\n", g_lfTrace[i].a); ++i; }
+    while (i < g_lfTrace.size())
+    {
+      int t = g_lfTrace[i].t;
+      long idx = g_lfTrace[i].a;
+      ++i;
+      long v[2] = {0, 0};
+      int k = 0;
+      while (i < g_lfTrace.size() && g_lfTrace[i].t == -1) { if (k < 2) v[k] = g_lfTrace[i].a; ++k; ++i; }
+      printf("L %d %ld %d %ld %ld\n", t, idx, k, v[0], k >= 2 ? v[1] : v[0]);
+    }
   }
   string line;
   while (std::getline(std::cin, line)) { if (vh::splitWs(line).size() && vh::splitWs(line)[0] == "end") break; }
